@@ -2,7 +2,7 @@
 Model of the outline algebra of ioflo/base/framing.py  (core Lean only).
 
 * `exEn`                — `Framer.ExEn(nears, far)` with `fars = far.outline`
-* `Forest`, `climb`, `descend`, `traceHead`, `traceOutline`
+* `Forest`, `climb`, `descendChk`, `traceHead`, `traceOutline(E)`
                         — `Frame.traceHead`, `Frame.traceOutline`, `Frame.getUnder`
 * `resolveLinks`        — `Frame.resolveOverLinks` / `Frame.resolveUnderLinks` run over the frames of
                           one framer in declaration order (`Framer.resolve`), from the `over` name and
@@ -68,11 +68,36 @@ def descend (F : Forest) : Nat → Option Fid → Option (List Fid)
 def traceHead (F : Forest) (f : Fid) : Option (List Fid) :=
   (climb F F.n (some f)).map List.reverse
 
+inductive TraceErr
+  | diverge      -- a `while frame:` loop does not terminate
+  | underLoop    -- "Outline unders create loop"
+  deriving DecidableEq, Repr
+
+/-- the trace-down loop of `Frame.traceOutline`:
+`while frame: if frame in outline: raise ResolveError(…); outline.append(frame); frame = frame.under` -/
+def descendChk (F : Forest) : Nat → List Fid → Option Fid → Except TraceErr (List Fid)
+  | _, acc, none => .ok acc
+  | 0, _, some _ => .error .diverge
+  | k + 1, acc, some f =>
+    if acc.contains f then .error .underLoop else descendChk F k (acc ++ [f]) (F.under f)
+
 /-- `Frame.traceOutline` -/
+def traceOutlineE (F : Forest) (f : Fid) : Except TraceErr (List Fid) :=
+  match climb F F.n (some f) with
+  | none => .error .diverge
+  | some up => descendChk F (F.n + 1) up.reverse (F.under f)
+
 def traceOutline (F : Forest) (f : Fid) : Option (List Fid) :=
-  match climb F F.n (some f), descend F F.n (F.under f) with
-  | some up, some down => some (up.reverse ++ down)
-  | _, _ => none
+  match traceOutlineE F f with
+  | .ok l => some l
+  | .error _ => none
+
+/-- the first error `Framer.traceOutlines` runs into, frames in order -/
+def traceError (F : Forest) : Option TraceErr :=
+  (List.range F.n).findSome? fun f =>
+    match traceOutlineE F f with
+    | .error e => some e
+    | .ok _ => if (traceHead F f).isSome then none else some .diverge
 
 /-- all heads and outlines can be traced (what a returning `Framer.traceOutlines` establishes) -/
 def Forest.traceable (F : Forest) : Bool :=
@@ -108,23 +133,25 @@ def attach (under : Fid) : List Link → List Link
   | (b, u) :: rest =>
     if b = false ∧ u = under then (true, under) :: rest else (b, u) :: attach under rest
 
-/-- body of `Frame.resolveOverLinks(self)`; `under`/`over` are the loop variables -/
-def overLoop (n self : Fid) : Nat → RState → Fid → Option Link → Except ResolveErr RState
-  | _, s, _, none => .ok s
-  | 0, _, _, some _ => .error .diverge
-  | k + 1, s, under, some (false, g) =>
+/-- body of `Frame.resolveOverLinks(self)`; `under`/`over` are the loop variables, `climbed` the frames passed -/
+def overLoop (n self : Fid) : Nat → RState → List Fid → Fid → Option Link → Except ResolveErr RState
+  | _, s, _, _, none => .ok s
+  | 0, _, _, _, some _ => .error .diverge
+  | k + 1, s, climbed, under, some (false, g) =>
     if g ≥ n then .error .badOver
     else if g = self then .error .loop
     else
       let s := s.setUnders g (attach under (s.unders g))
       let s := s.setOver under (some (true, g))
-      overLoop n self k s g (s.over g)
-  | k + 1, s, _, some (true, g) =>
+      if climbed.contains g then .error .loop
+      else overLoop n self k s (climbed ++ [g]) g (s.over g)
+  | k + 1, s, climbed, _, some (true, g) =>
     if g = self then .error .loop
-    else overLoop n self k s g (s.over g)
+    else if climbed.contains g then .error .loop
+    else overLoop n self k s (climbed ++ [g]) g (s.over g)
 
 def resolveOverLinks (n : Nat) (s : RState) (self : Fid) : Except ResolveErr RState :=
-  overLoop n self (n + 1) s self (s.over self)
+  overLoop n self (n + 1) s [] self (s.over self)
 
 def hasDup : List Fid → Bool
   | [] => false
